@@ -228,9 +228,20 @@ var specC12Stream = Register(&Spec[StreamCase]{
 			}
 			sofar := 0
 			for ci, ch := range chunks {
-				n, err := w.Write(ch)
+				var n int
+				var err error
+				switch (ci + c.ErrAt) % 3 { // the three ways bytes reach an io.Writer
+				case 0:
+					n, err = w.Write(ch)
+				case 1:
+					n, err = io.WriteString(w, string(ch))
+				default:
+					var n64 int64
+					n64, err = io.Copy(w, strings.NewReader(string(ch)))
+					n = int(n64)
+				}
 				if err != nil || n != len(ch) {
-					return errf("Write of %d bytes returned %d, %v", len(ch), n, err)
+					return errf("writing %d bytes (Write / io.WriteString / io.Copy from a strings.Reader) returned %d, %v", len(ch), n, err)
 				}
 				sofar += len(ch)
 				if err := checkSizes(sofar); err != nil {
